@@ -177,6 +177,16 @@ class C18(FsProp):
                                 continue
                             out.append({"cmd": "rename", "target_exists": tex, "cwd_mode": cwdm, "decoy_in_cwd": decoy,
                                         "version": v, "P": B, "tree": t, "clauses": ["C18.rename"]})
+        # rename with the payload lying next to the metafile, torrents whose own name ends in ".torrent" / has
+        # several dots / is hidden
+        from .e1 import FILE_NAMES, DIR_NAMES
+        for v in (1, 2, 3):
+            for nm in ("x.torrent", "pack.TORRENT", "a.tar.gz", ".hidden"):
+                for single in (True, False):
+                    t = mk_tree("S1", (2 * B + 5,), name=nm) if single else mk_tree("D2", (B + 1, 5), name=nm)
+                    for tex in (False, True):
+                        out.append({"cmd": "rename", "target_exists": tex, "cwd_mode": "metadir", "decoy_in_cwd": False,
+                                    "payload_beside": True, "version": v, "P": B, "tree": t, "clauses": ["C18.rename"]})
         for k, c in enumerate(out):
             if c["cmd"] != "rename":
                 c["cwd_mode"] = "elsewhere" if k % 3 == 0 else "metadir"
